@@ -20,6 +20,8 @@ import EaselModel.Msa.LemmasConv2
 import EaselModel.Msa.LemmasRbbSs
 import EaselModel.Msa.LemmasPk4
 import EaselModel.Msa.LemmasPk5
+import EaselModel.Msa.LemmasFrag2
+import EaselModel.Msa.LemmasRc
 /-! # C15 — alignment transformations keep the alignment well formed and the residues intact; WUSS round trips
 
 Property theorems only; proofs are glue on the lemmas of `EaselModel/Msa/Lemmas*.lean`.
@@ -305,6 +307,36 @@ theorem reverseComplement_twice (a : Abc) (compl : List UInt8) (m : Msa) (hd : m
     (reverseComplement m).st = .ok ∧ reverseComplement (reverseComplement m).msa = { msa := m, st := .ok } :=
   reverseComplement_twice' a compl m hd habc hcompl hinv hc
 
+/-- `esl_msa_ReverseComplement` ONCE, field by field: on a digital alignment whose alphabet has a complement table it
+    returns `eslOK`; every row is reversed and complemented cell by cell (cell `i` = complement of the old cell
+    `alen-1-i`: residues intact up to the strand change), SS_cons and every per-sequence SS go through
+    `esl_wuss_reverse`, SA/PP/RF/MM, every GC and every GR line are reversed, nothing else changes, and the alignment
+    stays well formed. Text mode or an alphabet without complement: `eslEINCOMPAT`, alignment untouched. -/
+theorem reverseComplement_spec (a : Abc) (compl : List UInt8) (m : Msa) (wf : m.WF) (hd : m.isDigital = true)
+    (habc : m.abc = some a) (hcompl : a.complement = some compl) (hc : m.codesOk a)
+    (hcl : ∀ x, x < a.Kp → (compl.getD x 0).toNat < a.Kp) (hKp : a.Kp ≤ 255) :
+    reverseComplement m = { msa := rcMsa compl m, st := .ok } ∧ (rcMsa compl m).WF ∧
+    (rcMsa compl m).rows = m.rows.map (revcompRow compl) ∧
+    (∀ r ∈ m.rows, ∀ i, i < m.alen → (revcompRow compl r).getD i 0 = compl.getD (r.getD (m.alen - 1 - i) 0).toNat 0) ∧
+    (rcMsa compl m).ss_cons = m.ss_cons.map wussReverse ∧ (rcMsa compl m).rf = m.rf.map List.reverse ∧
+    (rcMsa compl m).gc = m.gc.map (fun t => (t.1, t.2.reverse)) ∧
+    (rcMsa compl m).gr = m.gr.map (fun t => (t.1, t.2.map (Option.map List.reverse))) ∧
+    (rcMsa compl m).gs = m.gs ∧ (rcMsa compl m).sqname = m.sqname ∧ (rcMsa compl m).wgt = m.wgt := by
+  refine ⟨by simp [reverseComplement, hd, habc, hcompl], rcMsa_wf a compl m wf hd hc hcl hKp, rfl, ?_, rfl, rfl, rfl, rfl,
+    rfl, rfl, rfl⟩
+  intro r hr i hi
+  have hlen := (wf.rows_ok r hr).1
+  rw [← hlen] at hi ⊢
+  exact revcompRow_getD compl r i hi
+
+theorem reverseComplement_rejects (m : Msa) (h : m.isDigital = false ∨ ∃ a, m.abc = some a ∧ a.complement = none) :
+    reverseComplement m = { msa := m, st := .eincompat, exc := true } := by
+  rcases h with h | ⟨a, h1, h2⟩
+  · simp [reverseComplement, h]
+  · by_cases hd : m.isDigital = true
+    · simp [reverseComplement, hd, h1, h2]
+    · simp [reverseComplement, hd]
+
 /-- the generated DNA and RNA complement tables are involutions on the valid codes -/
 theorem generated_complement_involutive :
     (∃ c, Gen.rnaAbc.complement = some c ∧ Gen.rnaAbc.complInvolutive c) ∧
@@ -325,6 +357,29 @@ theorem flushLeftInserts_spec (m : Msa) (a : Abc) (rf : Bytes) (wf : m.WF) (hrf 
       (∀ i, i < m.alen → a.cIsGap (rf.getD i 0) = false → (flushRow a rf m.alen r).getD i 0 = r.getD i 0) := by
   refine ⟨by simp [flushLeftInserts, hrf, habc], fun r hr => ?_⟩
   exact flushRow_spec a hg rf r m.alen (wf.rf_ok rf hrf).1 (wf.rows_ok r hr).1
+
+/-- `esl_msa_MarkFragments(msa, fragthresh, &fragassign)` does not touch the alignment (it is a function of it) and flags
+    sequence `i` iff the span from its first to its last residue is shorter than `minspan = ceil(fragthresh * alen)`
+    (computed in binary32 by the caller of the model, L0): for a row whose first residue is at column `f` and last at
+    column `l` the span is `l - f + 1`; a row without residues has span `-alen` (flagged iff `-alen < minspan`, i.e. for
+    every positive threshold). Residue (`fragIsRes`) = `esl_abc_XIsResidue` in digital mode, `isalpha` in text mode. -/
+theorem markFragments_spec (m : Msa) (minspan : Int) (wf : m.WF) :
+    (markFragments m minspan).length = m.nseq ∧
+    ∀ isRes, isRes = fragIsRes m →
+    ∀ (i : Nat) (r : Bytes), m.rows[i]? = some r →
+      (markFragments m minspan)[i]? = some (fragFlag isRes m.alen minspan r) ∧
+      ((∀ c ∈ r, isRes c = false) → fragFlag isRes m.alen minspan r = decide (-(m.alen : Int) < minspan)) ∧
+      (∀ f l, f < m.alen → l < m.alen → isRes (r.getD f 0) = true → (∀ k, k < f → isRes (r.getD k 0) = false) →
+        isRes (r.getD l 0) = true → (∀ k, l < k → k < m.alen → isRes (r.getD k 0) = false) →
+        fragFlag isRes m.alen minspan r = decide ((l : Int) - f + 1 < minspan)) := by
+  refine ⟨by rw [markFragments_eq]; simp [wf.rows_len], ?_⟩
+  intro isRes hres i r hr
+  have hlen : r.length = m.alen := (wf.rows_ok r (List.mem_of_getElem? hr)).1
+  refine ⟨by rw [markFragments_eq, ← hres]; simp [hr], ?_, ?_⟩
+  · intro h; rw [← hlen]; exact fragFlag_empty isRes minspan r h
+  · intro f l hf hl a b c d
+    rw [← hlen] at hf hl d ⊢
+    exact fragFlag_span isRes minspan r f l hf hl a b c d
 
 /-- `esl_msa_MarkFragments_old` on one row (`maskEnds`): same length, same residues in the same order; every cell is
     an old cell or the missing-data symbol (leading / trailing non-residues only) -/
@@ -523,6 +578,37 @@ theorem ct2wuss_fails_needs_27 (n : Nat) (ct : List Nat) (hct : CtOk n ct) (h : 
 theorem wuss_few_pk_roundtrip (ss : Bytes) (ct : List Nat) (h : wuss2ct ss = some ct) (hfew : (pkPairs ct).length ≤ 26) :
     ∃ ss2, ct2wuss ct = .ok ss2 ∧ wuss2ct ss2 = some ct :=
   ct2wuss_ok_of_few_pk ss.length ct (wuss2ct_ctOk ss ct h) hfew
+
+/-! ### likewise `esl_ct2simplewuss` (`<>` for the pairs found on the main stack, `Aa..Zz` for the pseudoknotted ones, `.` elsewhere) -/
+
+/-- PSEUDOKNOTTED ROUND TRIP for `esl_ct2simplewuss`: on ANY symmetric pair table, when it returns `eslOK` the string has
+    `n` symbols, is a class-nested labelling of the table and `esl_wuss2ct` reads the table back -/
+theorem simple_pk_roundtrip (n : Nat) (ct : List Nat) (hct : CtOk n ct) (ss : Bytes) (h : ct2simplewuss ct = .ok ss) :
+    ss.length = n ∧ ClassLabels ct ss ∧ ClassNested ct ss ∧ wuss2ct ss = some ct :=
+  ⟨(ct2wussGen_class_labels true n ct hct ss h).1, (ct2wussGen_class_labels true n ct hct ss h).2.1,
+   (ct2wussGen_class_labels true n ct hct ss h).2.2, pk_roundtripGen true n ct hct ss h⟩
+
+/-- TOTALITY of `esl_ct2simplewuss`: `eslOK` or the documented "not enough letters", nothing else, no out-of-bounds access -/
+theorem ct2simplewuss_total (n : Nat) (ct : List Nat) (hct : CtOk n ct) :
+    (∃ ss, ct2simplewuss ct = .ok ss ∧ wuss2ct ss = some ct) ∨ (∃ p, ct2simplewuss ct = .error (.einvalLetters p)) := by
+  rcases ct2wussGen_total true n ct hct with ⟨ss, h⟩ | ⟨p, h⟩
+  · exact Or.inl ⟨ss, h, pk_roundtripGen true n ct hct ss h⟩
+  · exact Or.inr ⟨p, h⟩
+
+/-- ... and the same combinatorial sufficient condition: at most 26 pseudoknotted pairs ⇒ converted, read back identically -/
+theorem ct2simplewuss_ok_of_few_pk (n : Nat) (ct : List Nat) (hct : CtOk n ct) (hfew : (pkPairs ct).length ≤ 26) :
+    ∃ ss, ct2simplewuss ct = .ok ss ∧ wuss2ct ss = some ct := by
+  obtain ⟨ss, h⟩ := ct2wussGen_ok_of_few true n ct hct hfew
+  exact ⟨ss, h, pk_roundtripGen true n ct hct ss h⟩
+
+/-- for every pair table `esl_wuss2ct` can produce: wuss -> ct -> simple wuss -> ct is the identity or the documented failure -/
+theorem wuss_ct_simplewuss_ct_total (ss : Bytes) (ct : List Nat) (h : wuss2ct ss = some ct) :
+    (∃ ss2, ct2simplewuss ct = .ok ss2 ∧ ss2.length = ss.length ∧ wuss2ct ss2 = some ct) ∨
+    (∃ p, ct2simplewuss ct = .error (.einvalLetters p)) := by
+  have hct := wuss2ct_ctOk ss ct h
+  rcases ct2wussGen_total true ss.length ct hct with ⟨ss2, h2⟩ | ⟨p, hp⟩
+  · exact Or.inl ⟨ss2, h2, (ct2wussGen_class_labels true ss.length ct hct ss2 h2).1, pk_roundtripGen true ss.length ct hct ss2 h2⟩
+  · exact Or.inr ⟨p, hp⟩
 
 /-- what `esl_ct2wuss` writes for an arbitrary table: `n` symbols; unpaired positions carry unpaired symbols, every
     pair a bracket pair or an upper/lower letter pair, and pairs that share a stack never cross -/
@@ -861,6 +947,15 @@ theorem appendGR_spec (n : Nat) (tbl : TagTable) (tag : Bytes) (i : Nat) (v : By
   ⟨fun tag' j => tblLookup_update n _ tag i hi tag' j tbl hw, tblUpdate_width n _ tag i tbl hw, tblUpdate_tags n _ tag i tbl,
    tblUpdate_nodup n _ tag i tbl⟩
 
+/-- `esl_msa_AddComment` / `esl_msa_AddGF` bookkeeping: the new line is the LAST one, the earlier lines keep their order
+    and content, the counts grow by one, no other field changes — in particular the alignment stays well formed -/
+theorem addComment_addGF_spec (m : Msa) (tag v : Bytes) (wf : m.WF) :
+    (addComment m v).comment = m.comment ++ [v] ∧ (addComment m v).comment.length = m.comment.length + 1 ∧
+    addComment m v = { m with comment := (addComment m v).comment } ∧ (addComment m v).WF ∧
+    (addGF m tag v).gf = m.gf ++ [(tag, v)] ∧ (addGF m tag v).gf.length = m.gf.length + 1 ∧
+    addGF m tag v = { m with gf := (addGF m tag v).gf } ∧ (addGF m tag v).WF :=
+  ⟨rfl, by simp [addComment], rfl, { wf with }, rfl, by simp [addGF], rfl, { wf with }⟩
+
 /-- `esl_msa_AppendGC`: a new tag gets a new line at the end of the table -/
 theorem appendGC_new (tbl : List (Bytes × Bytes)) (tag v : Bytes) (h : tag ∉ tbl.map (·.1)) :
     appendGC tbl tag v = tbl ++ [(tag, v)] := by
@@ -1197,5 +1292,14 @@ def h27 : Bytes := [0x3c] ++ List.replicate 27 0x41 ++ [0x3e] ++ List.replicate 
 example : (pkPairs ((wuss2ct h27).getD [])).length = 27 ∧ (ct2wuss ((wuss2ct h27).getD [])).toOption = some h27 := by decide +kernel
 example : CtOk 4 [0, 3, 4, 1, 2] ∧ (pkPairs [0, 3, 4, 1, 2]).length ≤ 26 :=
   ⟨wuss2ct_ctOk [0x3c, 0x41, 0x3e, 0x61] _ (by decide), by decide⟩
+
+example : markFragments { exMsa with rows := [[0x41, 0x2d, 0x43, 0x47], [0x2d, 0x41, 0x43, 0x2d], [0x2d, 0x2d, 0x2d, 0x2d]] } 3
+    = [false, true, true] := by decide
+example : ∃ c, Gen.rnaAbc.complement = some c ∧ (∀ x, x < Gen.rnaAbc.Kp → (c.getD x 0).toNat < Gen.rnaAbc.Kp) ∧ Gen.rnaAbc.Kp ≤ 255 :=
+  ⟨_, rfl, by decide, by decide⟩
+example : (reverseComplement exPk).st = .ok ∧ (reverseComplement exPk).msa.rows = [[3, 0, 1, 2, 3]] ∧
+    (reverseComplement exPk).msa.ss_cons = some [0x2e, 0x41, 0x3c, 0x61, 0x3e] := by decide
+
+example : (ct2simplewuss [0, 3, 4, 1, 2]).toOption = some [0x3c, 0x41, 0x3e, 0x61] := by decide
 
 end EaselModel.Props.C15
